@@ -13,6 +13,8 @@ import PlatypusModel.Model.Machine
 import PlatypusModel.Model.Parallel
 import PlatypusModel.Model.Indicators
 import PlatypusModel.Model.LinAlg
+import PlatypusModel.Model.Codec
+import PlatypusModel.Model.Problems
 open Wire Platypus
 
 namespace Ops
@@ -418,8 +420,97 @@ def opsLinAlg (op : String) : Option (P String) :=
         | .error e => showLErr e)
   | _ => none
 
+partial def jval : P J := do
+  match (← tok) with
+  | "N" => pure .null
+  | "T" => pure (.bool true)
+  | "F" => pure (.bool false)
+  | "I" => do let i ← int; pure (.int i)
+  | "D" => do let b ← nat; pure (.num b)
+  | "S" => do let c ← chars; pure (.str (String.ofList c))
+  | "L" => do let n ← nat; let l ← (List.range n).mapM (fun _ => jval); pure (.arr l)
+  | "O" => do
+      let n ← nat
+      let kv ← (List.range n).mapM (fun _ => do let k ← chars; let v ← jval; pure (String.ofList k, v))
+      pure (.obj kv)
+  | _ => throw "bad-op"
+
+partial def showJ : J → String
+  | .null => "N" | .bool true => "T" | .bool false => "F" | .int i => s!"I{i}" | .num b => s!"D{b}"
+  | .str s => "S" ++ showChars s.toList
+  | .arr l => "[" ++ ",".intercalate (l.map showJ) ++ "]"
+  | .obj kv => "{" ++ ",".intercalate (kv.map fun (k, v) => showChars k.toList ++ ":" ++ showJ v) ++ "}"
+
+def showPDesc (p : PDesc) : String :=
+  s!"{p.nvars},{p.nobjs},{p.nconstrs},{String.ofList (p.dirs.map fun d => if d then '1' else '0')}," ++
+    "/".intercalate (p.cons.map fun (o, y) => o.toString ++ showFlt y)
+
+def showDSol (s : DSol) : String :=
+  s!"vars={showJ (.arr s.vars)};objs={showJ (.arr s.objs)};cons={showJ (.arr s.cons)};cv={showFlt s.cv};f={if s.feasible then 1 else 0};p={showPDesc s.problem}"
+
+def opsCodec (op : String) : Option (P String) :=
+  match op with
+  | "jdecode" => some do
+      let fixed ← bool
+      let table ← list (do let k ← chars; let o ← opTok; let y ← flt; pure (String.ofList k, o, y))
+      let parseCons := fun (s : String) => (table.find? (·.1 == s)).map (fun t => (t.2.1, t.2.2))
+      let supplied ← do
+        match (← tok) with
+        | "P0" => pure none
+        | "P1" => do
+            let nv ← nat; let no ← nat; let nc ← nat; let dirs ← list bool
+            let cons ← list (do let o ← opTok; let y ← flt; pure (o, y))
+            pure (some ({ nvars := nv, nobjs := no, nconstrs := nc, dirs := dirs, cons := cons, inferred := false } : PDesc))
+        | _ => throw "bad-op"
+      let j ← jval
+      let (v, st) := decodeJ fixed parseCons j { problem := supplied }
+      let sols := match v with
+        | V.arr l => l.filterMap fun (x : V) => match x with | V.sol s => some s | _ => none
+        | _ => []
+      let pd := match st.problem with | some p => showPDesc p | none => "none"
+      pure (s!"{sols.length} " ++ " ".intercalate (sols.map showDSol) ++ s!" final={pd}")
+  | _ => none
+
+def trigF : Trig Float :=
+  { cos := Float.cos, sin := Float.sin, sqrt := Float.sqrt, exp := Float.exp, pow := Float.pow,
+    pi := 3.141592653589793, ofNat := Float.ofNat }
+
+def showFs (l : List Float) : String := " ".intercalate (l.map showFlt)
+
+def pvP : Nat → P PV
+  | 0 => throw "bad-op"
+  | fuel + 1 => do
+      match (← tok) with
+      | "s" => do let b ← nat; pure (.scalar b)
+      | "l" => do let l ← list (pvP fuel); pure (.list l)
+      | _ => throw "bad-op"
+
+partial def showPV : PV → String
+  | .scalar b => s!"s{b}"
+  | .list l => "[" ++ ",".intercalate (l.map showPV) ++ "]"
+
+def opsProblems (op : String) : Option (P String) :=
+  match op with
+  | "fla" => some do
+      let data ← list (pvP 4); let start ← nat; let stop ← nat; let v ← pvP 4
+      pure ("a " ++ " ".intercalate ((sliceAssign data start stop v).map showPV))
+  | "zdt" => some do
+      let k ← nat; let x ← list flt
+      pure ("o " ++ showFs (match k with
+        | 1 => zdt1 trigF x | 2 => zdt2 trigF x | 3 => zdt3 trigF x | 4 => zdt4 trigF x | _ => zdt6 trigF x))
+  | "zdt5" => some do
+      let x ← list bits
+      let (f1, g, d) := zdt5 x
+      pure s!"o {f1} {g} {d}"
+  | "dtlz" => some do
+      let k ← nat; let m ← nat; let x ← list flt
+      pure ("o " ++ showFs (match k with
+        | 1 => dtlz1 trigF m x | 2 => dtlz2 trigF m x | 3 => dtlz3 trigF m x
+        | 4 => dtlz4 trigF m 100.0 x | _ => dtlz7 trigF m x))
+  | _ => none
+
 def dispatch (op : String) (args : List String) : Except String String :=
-  match (opsGray op <|> opsDominance op <|> opsConstraint op <|> opsEps op <|> opsSorting op <|> opsGrid op <|> opsRun op <|> opsSurvival op <|> opsMachine op <|> OpsOperators.opsOperators op <|> opsParallel op <|> opsIndicators op <|> opsLinAlg op) with
+  match (opsGray op <|> opsDominance op <|> opsConstraint op <|> opsEps op <|> opsSorting op <|> opsGrid op <|> opsRun op <|> opsSurvival op <|> opsMachine op <|> OpsOperators.opsOperators op <|> opsParallel op <|> opsIndicators op <|> opsLinAlg op <|> opsCodec op <|> opsProblems op) with
   | some p => Wire.run p args
   | none => .error "bad-op"
 
